@@ -81,11 +81,14 @@ Proof.
     apply Z.eqb_eq in A; apply term_eqb_true in B; auto.
 Qed.
 
-Lemma tx_hashes_ok_sound : forall ch txs, tx_hashes_ok ch txs = true ->
-  Forall (fun t => tx_hash ch (t_body t) = t_hash t) txs.
+Definition tx_recomputes (ch : Z) (t : txrec) : Prop := is_unverified t = true \/ tx_hash ch (t_body t) = t_hash t.
+
+Lemma tx_hashes_ok_sound : forall ch b, tx_hashes_ok ch b = true ->
+  tx_verified b = true -> Forall (tx_recomputes ch) (b_txs b).
 Proof.
-  unfold tx_hashes_ok. intros ch txs H. rewrite forallb_forall in H. apply Forall_forall.
-  intros t I. apply term_eqb_true. apply H. exact I.
+  unfold tx_hashes_ok. intros ch b H V. rewrite V in H. cbn [negb orb] in H.
+  rewrite forallb_forall in H. apply Forall_forall.
+  intros t I. specialize (H t I). apply orb_true_iff in H. destruct H as [H|H]; [left; exact H | right; apply term_eqb_true; exact H].
 Qed.
 
 Lemma receipts_match_sound : forall txs rs, receipts_match txs rs = true ->
@@ -96,92 +99,141 @@ Proof.
   - apply IH. apply andb_true_iff in H. tauto.
 Qed.
 
-Theorem accept_sound : forall ch cs b cs', accept ch cs b = Some cs' ->
+Lemma accept_inv : forall ch st cs b cs', accept ch st cs b = Some cs' ->
+  (receipts_match (b_txs b) (b_rcpts b) = true /\ tx_hashes_ok ch b = true /\ block_hash_ok b = true /\
+   succession_ok cs b = true /\ roots_ok st cs b = true) /\
+  cs' = {| cs_head := Some (h_number (b_hdr b), b_hash b); cs_root := h_state_root (b_hdr b); cs_state := new_state cs b; cs_blocks := b :: cs_blocks cs |}.
+Proof.
+  intros ch st cs b cs'. unfold accept.
+  generalize (receipts_match (b_txs b) (b_rcpts b)) (tx_hashes_ok ch b) (block_hash_ok b)
+             (succession_ok cs b) (roots_ok st cs b).
+  intros [|] [|] [|] [|] [|]; cbn [andb]; intros H; try discriminate.
+  injection H as <-. repeat split.
+Time Qed.
+
+Lemma block_hash_ok_sound : forall b, block_hash_ok b = true -> block_hash b = Some (b_hash b).
+Proof.
+  unfold block_hash_ok. intros b. generalize (block_hash b). intros [h|] H; [|discriminate].
+  apply term_eqb_true in H. congruence.
+Time Qed.
+
+Lemma roots_ok_sound : forall st cs b, roots_ok st cs b = true ->
+  (st = true -> b_old_root b = cs_root cs) /\
+  commitment (pre_0_14 b) (cs_state cs) = b_old_root b /\
+  commitment (pre_0_14 b) (new_state cs b) = h_state_root (b_hdr b).
+Proof.
+  unfold roots_ok. intros st cs b.
+  generalize (commitment (pre_0_14 b) (cs_state cs)) (commitment (pre_0_14 b) (new_state cs b)).
+  intros x y H. apply andb_true_iff in H. destruct H as [H R2]. apply andb_true_iff in H. destruct H as [R0 R1].
+  apply term_eqb_true in R1. apply term_eqb_true in R2. repeat split; auto.
+  intros ->. apply term_eqb_true in R0. exact R0.
+Time Qed.
+
+Theorem accept_sound : forall ch st cs b cs', accept ch st cs b = Some cs' ->
   linked cs b /\
   Forall2 (fun t r => t_hash t = r_txhash r) (b_txs b) (b_rcpts b) /\
-  Forall (fun t => tx_hash ch (t_body t) = t_hash t) (b_txs b) /\
+  (tx_verified b = true -> Forall (tx_recomputes ch) (b_txs b)) /\
   block_hash b = Some (b_hash b) /\
+  (st = true -> b_old_root b = cs_root cs) /\
   commitment (pre_0_14 b) (cs_state cs) = b_old_root b /\
-  commitment (pre_0_14 b) (apply_diff true (cs_state cs) (to_diff (b_diff b))) = h_state_root (b_hdr b) /\
+  commitment (pre_0_14 b) (new_state cs b) = h_state_root (b_hdr b) /\
   cs' = {| cs_head := Some (h_number (b_hdr b), b_hash b);
-           cs_state := apply_diff true (cs_state cs) (to_diff (b_diff b));
+           cs_root := h_state_root (b_hdr b);
+           cs_state := new_state cs b;
            cs_blocks := b :: cs_blocks cs |}.
 Proof.
-  unfold accept. intros ch cs b cs' H.
-  destruct (receipts_match (b_txs b) (b_rcpts b)) eqn:R; [|discriminate].
-  destruct (tx_hashes_ok ch (b_txs b)) eqn:T; [|discriminate].
-  destruct (block_hash_ok b) eqn:B; [|discriminate].
-  destruct (succession_ok cs b) eqn:S; [|discriminate].
-  destruct (roots_ok cs b) eqn:Ro; [|discriminate].
-  simpl in H. injection H as <-.
-  unfold roots_ok in Ro. apply andb_true_iff in Ro. destruct Ro as [R1 R2].
-  apply term_eqb_true in R1. apply term_eqb_true in R2.
-  unfold block_hash_ok in B. destruct (block_hash b) as [h|] eqn:BH; [|discriminate]. apply term_eqb_true in B. subst h.
-  repeat split; auto using succession_ok_linked, tx_hashes_ok_sound, receipts_match_sound.
-Qed.
+  intros ch st cs b cs' H. apply accept_inv in H. destruct H as ((R & T & B & S & Ro) & E).
+  apply roots_ok_sound in Ro. destruct Ro as (R0 & R1 & R2).
+  split; [apply succession_ok_linked; exact S|].
+  split; [apply receipts_match_sound; exact R|].
+  split; [apply tx_hashes_ok_sound; exact T|].
+  split; [apply block_hash_ok_sound; exact B|].
+  split; [exact R0|]. split; [exact R1|]. split; [exact R2 | exact E].
+Time Qed.
 
 (* ---------- rejection is pure ---------- *)
-Theorem reject_pure : forall ch cs b, accept ch cs b = None -> push ch cs b = cs.
-Proof. intros ch cs b H. unfold push. rewrite H. reflexivity. Qed.
+Theorem reject_pure : forall ch st cs b, accept ch st cs b = None -> push ch st cs b = cs.
+Proof. intros ch st cs b H. unfold push. rewrite H. reflexivity. Qed.
 
 (* ... at every position of a history: a rejected block can be deleted from the input without any effect *)
-Theorem reject_pure_run : forall ch bs1 b bs2,
-  accept ch (run ch bs1) b = None -> run ch (bs1 ++ b :: bs2) = run ch (bs1 ++ bs2).
+Theorem reject_pure_run : forall ch st bs1 b bs2,
+  accept ch st (run ch st bs1) b = None -> run ch st (bs1 ++ b :: bs2) = run ch st (bs1 ++ bs2).
 Proof.
-  intros ch bs1 b bs2 H. unfold run in *. rewrite !fold_left_app. simpl.
-  rewrite (reject_pure _ _ _ H). reflexivity.
+  intros ch st bs1 b bs2 H. unfold run in *. rewrite !fold_left_app. simpl.
+  rewrite (reject_pure _ _ _ _ H). reflexivity.
 Qed.
 
 (* ---------- the committed projection by format, and the tamper theorem ---------- *)
 Definition committed (b : block) :=
   let v := h_ver (b_hdr b) in
-  if ver_ge v (0, 13, 4) then Some (inl (committed_0134 b))
-  else if ver_ge v (0, 13, 2) then Some (inr (committed_0132 b))
-  else None.
+  if ver_ge v (0, 13, 4) then inl (committed_0134 b)
+  else if ver_ge v (0, 13, 2) then inr (inl (committed_0132 b))
+  else inr (inr (committed_post07 b)).
 
-Theorem preimage_injective : forall b1 b2 h, block_wf b1 -> block_wf b2 ->
+Lemma some_inj : forall A (a b : A), Some a = Some b -> a = b.
+Proof. intros A a b H. injection H. auto. Qed.
+
+Local Opaque block_hash_0134 block_hash_0132 block_hash_post07.
+
+(* for two blocks of the Pedersen format the (unhashed) protocol versions must agree on the 0.11.1 signature rule *)
+Definition same_sig_rule (b1 b2 : block) : Prop :=
+  ver_ge (h_ver (b_hdr b1)) (0, 13, 2) = false -> ver_ge (h_ver (b_hdr b2)) (0, 13, 2) = false -> sig_rule b1 = sig_rule b2.
+
+Theorem preimage_injective : forall b1 b2 h, block_wf b1 -> block_wf b2 -> same_sig_rule b1 b2 ->
   block_hash b1 = Some h -> block_hash b2 = Some h -> committed b1 = committed b2.
 Proof.
-  unfold block_hash, committed. intros b1 b2 h W1 W2 H1 H2.
+  unfold block_hash, committed, same_sig_rule. intros b1 b2 h W1 W2 SR H1 H2.
   destruct (ver_ge (h_ver (b_hdr b1)) (0, 13, 4)), (ver_ge (h_ver (b_hdr b2)) (0, 13, 4)).
-  - injection H1 as <-. injection H2 as H2. symmetry in H2. rewrite (preimage_injective_0134 _ _ W1 W2 H2). reflexivity.
-  - destruct (ver_ge (h_ver (b_hdr b2)) (0, 13, 2)); [|discriminate].
-    injection H1 as <-. injection H2 as H2. symmetry in H2. apply formats_disjoint in H2. contradiction.
-  - destruct (ver_ge (h_ver (b_hdr b1)) (0, 13, 2)); [|discriminate].
-    injection H1 as <-. injection H2 as H2. apply formats_disjoint in H2. contradiction.
-  - destruct (ver_ge (h_ver (b_hdr b1)) (0, 13, 2)); [|discriminate].
-    destruct (ver_ge (h_ver (b_hdr b2)) (0, 13, 2)); [|discriminate].
-    injection H1 as <-. injection H2 as H2. symmetry in H2. rewrite (preimage_injective_0132 _ _ W1 W2 H2). reflexivity.
+  - apply some_inj in H1. apply some_inj in H2. rewrite <- H2 in H1.
+    rewrite (preimage_injective_0134 _ _ W1 W2 H1). reflexivity.
+  - exfalso. destruct (ver_ge (h_ver (b_hdr b2)) (0, 13, 2));
+      apply some_inj in H1; apply some_inj in H2; rewrite <- H2 in H1.
+    + apply formats_disjoint in H1. exact H1.
+    + symmetry in H1. apply (post07_disjoint b2 b1) in H1. exact H1.
+  - exfalso. destruct (ver_ge (h_ver (b_hdr b1)) (0, 13, 2));
+      apply some_inj in H1; apply some_inj in H2; rewrite <- H1 in H2.
+    + apply formats_disjoint in H2. exact H2.
+    + symmetry in H2. apply (post07_disjoint b1 b2) in H2. exact H2.
+  - destruct (ver_ge (h_ver (b_hdr b1)) (0, 13, 2)), (ver_ge (h_ver (b_hdr b2)) (0, 13, 2));
+      apply some_inj in H1; apply some_inj in H2; rewrite <- H2 in H1.
+    + rewrite (preimage_injective_0132 _ _ W1 W2 H1). reflexivity.
+    + exfalso. symmetry in H1. apply (post07_disjoint b2 b1) in H1. exact H1.
+    + exfalso. apply (post07_disjoint b1 b2) in H1. exact H1.
+    + rewrite (preimage_injective_post07 _ _ W1 W2 (SR eq_refl eq_refl) H1). reflexivity.
 Qed.
 
 (* b is a block whose declared hash recomputes; b' carries the same declared hash but differs from b in a
    committed field: it is rejected, whatever the chain state *)
-Theorem tamper_rejected : forall ch cs b b', block_wf b -> block_wf b' ->
+Theorem tamper_rejected : forall ch st cs b b', block_wf b -> block_wf b' -> same_sig_rule b' b ->
   block_hash b = Some (b_hash b) -> b_hash b' = b_hash b -> committed b' <> committed b ->
-  accept ch cs b' = None.
+  accept ch st cs b' = None.
 Proof.
-  intros ch cs b b' W W' V D N. destruct (accept ch cs b') as [cs'|] eqn:A; [|reflexivity].
+  intros ch st cs b b' W W' SR V D N. destruct (accept ch st cs b') as [cs'|] eqn:A; [|reflexivity].
   exfalso. apply accept_sound in A. destruct A as (_ & _ & _ & BH & _).
   rewrite D in BH. apply N. eapply preimage_injective; eauto.
 Qed.
 
 (* a transaction whose declared hash belongs to different fields *)
-Theorem tx_tamper_rejected : forall ch cs b' t' body, In t' (b_txs b') ->
+Theorem tx_tamper_rejected : forall ch st cs b' t' body, In t' (b_txs b') -> tx_verified b' = true ->
   tx_ok body -> tx_ok (t_body t') -> tx_hash ch body = t_hash t' -> t_body t' <> body ->
-  accept ch cs b' = None.
+  accept ch st cs b' = None.
 Proof.
-  intros ch cs b' t' body I O O' V N. destruct (accept ch cs b') as [cs'|] eqn:A; [|reflexivity].
-  exfalso. apply accept_sound in A. destruct A as (_ & _ & T & _).
-  rewrite Forall_forall in T. specialize (T _ I). apply N. apply (tx_hash_injective ch); auto. congruence.
+  intros ch st cs b' t' body I TV O O' V N. destruct (accept ch st cs b') as [cs'|] eqn:A; [|reflexivity].
+  exfalso. apply accept_sound in A. destruct A as (_ & _ & T & _). specialize (T TV).
+  rewrite Forall_forall in T. specialize (T _ I). destruct T as [T|T].
+  - unfold is_unverified in T. destruct (t_body t'); try discriminate. exact O'.
+  - apply N. apply (tx_hash_injective ch); auto. congruence.
 Qed.
 
 (* a declared state root that is not the commitment of (current state + diff), a stale old root, or a broken
    linkage: rejected *)
-Theorem wrong_root_rejected : forall ch cs b,
-  commitment (pre_0_14 b) (apply_diff true (cs_state cs) (to_diff (b_diff b))) <> h_state_root (b_hdr b) \/
-  commitment (pre_0_14 b) (cs_state cs) <> b_old_root b \/ ~ linked cs b ->
-  accept ch cs b = None.
+Theorem wrong_root_rejected : forall ch st cs b,
+  commitment (pre_0_14 b) (new_state cs b) <> h_state_root (b_hdr b) \/
+  commitment (pre_0_14 b) (cs_state cs) <> b_old_root b \/
+  (st = true /\ b_old_root b <> cs_root cs) \/ ~ linked cs b ->
+  accept ch st cs b = None.
 Proof.
-  intros ch cs b H. destruct (accept ch cs b) as [cs'|] eqn:A; [|reflexivity].
-  exfalso. apply accept_sound in A. destruct A as (L & _ & _ & _ & R1 & R2 & _). tauto.
+  intros ch st cs b H. destruct (accept ch st cs b) as [cs'|] eqn:A; [|reflexivity].
+  exfalso. apply accept_sound in A. destruct A as (L & _ & _ & _ & R0 & R1 & R2 & _).
+  destruct H as [H|[H|[[S H]|H]]]; auto.
 Qed.
